@@ -34,7 +34,7 @@ LawDevs(o) ==
    ELSE IF ~InPlan(c) \/ o.rep \notin 1..Reps THEN {"not-in-plan"}
    ELSE IF ~KeyLess(prev, Key(c, o.rep)) THEN {"plan-order"} ELSE {})
   \cup (IF o.na = 1
-          THEN (IF o.op \in {"len-1", "len+1", "ext-odd"} \/ o.vlen <= 2 THEN {} ELSE {"unexpected-na"})
+          THEN (IF o.op \in {"len-1", "len+1", "len-max", "ext-odd"} \/ o.vlen <= 2 THEN {} ELSE {"unexpected-na"})
           ELSE (IF Totality(o) THEN {} ELSE {IF o.pan = 1 THEN "panic" ELSE IF o.hang = 1 THEN "hang" ELSE "alloc"})
                \cup (IF Bound(o) THEN {} ELSE {"bound"})
                \cup (IF Fixpoint(o) THEN {} ELSE {"fixpoint"})
